@@ -222,3 +222,25 @@ Proof.
 Qed.
 
 End RemoveRoot.
+
+(* ================================================================== 3. the recurrence on counts *)
+Local Open Scope Q_scope.
+
+Definition NQ (V R : list nat) : Q := qsum (map (fun F => bq (rfb V R F)) (subseqs (pairs V))).
+
+Theorem NQ_step rho V R0 : NoDup V -> In rho V -> NoDup (rho :: R0) -> incl R0 V ->
+  NQ V (rho :: R0) ==
+  qsum (map (fun J => NQ (filter (neqb rho) V) (R0 ++ J)) (subseqs (filter (neqb rho) V))).
+Proof.
+  intros HV Hrho HR HRV. unfold NQ at 1.
+  set (V' := filter (neqb rho) V).
+  set (G := fun S1 S2 : list edge => bq (rfb V' (R0 ++ map (other rho) S1) S2)).
+  rewrite (qsum_map_ext _ (fun F => G (filter (has rho) F) (filter (fun e => negb (has rho e)) F))).
+  2:{ intros F HF. apply subseqs_spec, subl_incl in HF. unfold G, V'.
+      rewrite (rfb_remove_root rho V HV Hrho F HF R0 HR HRV). reflexivity. }
+  rewrite (split2 (has rho) (pairs V) G).
+  erw (pairs_without rho V). fold V'.
+  assert (EV : subseqs V' = map (map (other rho)) (subseqs (filter (has rho) (pairs V)))).
+  { unfold V'. rewrite <- (other_endpoints rho V HV Hrho). apply subseqs_map. }
+  rewrite EV, map_map. unfold G, NQ. reflexivity.
+Qed.
